@@ -144,8 +144,10 @@ Proof.
   - apply elem_of_list_singleton in Ho as ->. cbn in Hx. apply elem_of_list_singleton in Hx. auto.
 Qed.
 
-Lemma alpha_cids_typed Δ c x :
-  cfg_typed D F teq Δ c -> CoreCfg c -> x ∈ cfg_cids (α c) -> is_Some (chans c !! x).
+Lemma alpha_cids_typed_gen Δ c x :
+  cfg_typed D F teq Δ c ->
+  (forall k st m, chans c !! k = Some st -> ch_buf st = Some m -> m_rule m = RFWD -> exists n, m_provs m = [n]) ->
+  x ∈ cfg_cids (α c) -> is_Some (chans c !! x).
 Proof.
   intros Hc Hcc. unfold cfg_cids, α. rewrite elem_of_flat_map. intros (o & Ho & Hx).
   apply elem_of_app in Ho as [Ho|Ho].
@@ -158,9 +160,14 @@ Proof.
     apply Forall_cons_iff in Hprov as [(c0 & t' & Hc0 & Ht' & _) _]. assert (c0 = a) by congruence. subst. eauto.
   - unfold chans_objs in Ho. apply elem_of_flat_map in Ho as ([k st] & Hk & Ho). cbn in Ho.
     apply elem_of_map_to_list in Hk. unfold chan_obj in Ho. destruct (ch_buf st) as [m|] eqn:Hb; [|by apply elem_of_nil in Ho].
-    destruct (cc_msgs c Hcc k st m Hk Hb) as [_ Hfw].
-    destruct (msg_obj_typed_cids Δ k m o x (ct_msgs _ _ _ _ _ Hc k st m Hk Hb) Hfw Ho Hx) as [->|Hd]; [eauto|].
+    destruct (msg_obj_typed_cids Δ k m o x (ct_msgs _ _ _ _ _ Hc k st m Hk Hb) (Hcc k st m Hk Hb) Ho Hx) as [->|Hd]; [eauto|].
     by apply (ct_dom _ _ _ _ _ Hc).
+Qed.
+
+Lemma alpha_cids_typed Δ c x :
+  cfg_typed D F teq Δ c -> CoreCfg c -> x ∈ cfg_cids (α c) -> is_Some (chans c !! x).
+Proof.
+  intros Hc Hcc. apply (alpha_cids_typed_gen Δ c x Hc). intros k st m Hk Hb. by destruct (cc_msgs c Hcc k st m Hk Hb).
 Qed.
 
 Lemma core_head b : core_form b = true -> head_lin b.
